@@ -319,7 +319,26 @@ def do_check(prop, tier, keep=False, only=None, verbose=False):
                         kind, path, text = decide_failure(prop, j2, kernels[j.kernel], r2, wd)
                         return (kind, path, text + ' (outside the known-finding region)')
                     return ('undecided', None, 'run with known-finding region excluded: %s %s' % (r2.status, r2.detail))
-                return decide_failure(prop, j, kernels[j.kernel], r, wd)
+                d = decide_failure(prop, j, kernels[j.kernel], r, wd)
+                if d[0] == 'undecided' and 'does not reproduce natively' in d[2] and (j.abstract_mul or j.abstract_div or j.abstract_fp):
+                    # the counterexample lives in the abstraction (an interpretation of the uninterpreted product/quotient that is not
+                    # the machine one).  Retry once with the machine operations: a real defect then yields a counterexample that replays.
+                    j3 = copy_job(j)
+                    j3.abstract_mul = j3.abstract_div = j3.abstract_fp = False
+                    j3.ignore_classes = ()
+                    j3.canary = 'concrete-retry'
+                    j3.solvers = ['cadical', 'kissat']
+                    j3.timeout = min(max(j.timeout, 300), 600)
+                    r3 = R.run_job(j3, kernels[j.kernel], os.path.join(wd, 'concrete'))
+                    if r3.status == 'fail':
+                        kind, path, text = decide_failure(prop, j3, kernels[j.kernel], r3, wd)
+                        return (kind, path, (text + ' (found after retrying without abstraction)').strip())
+                    if r3.status == 'pass':
+                        r.excl = r3         # proved with the machine operations: the abstract counterexample was spurious
+                        r.status = 'pass'
+                        return None
+                    return ('undecided', d[1], d[2] + '; retry without abstraction: %s %s' % (r3.status, r3.detail))
+                return d
             return ('undecided', None, '%s: %s' % (r.status, r.detail))
         with ThreadPoolExecutor(max_workers=12) as ex:
             decs = list(ex.map(decide, results))
